@@ -428,3 +428,50 @@ fn probe_message_new() {
         }
     }
 }
+
+/// C10: the standard collector's step on crafted statistics vs an independent tally
+#[cfg(feature = "statistics")]
+#[test]
+fn probe_collect_statistic() {
+    use crate::statistics::{common::*, Statistic, StatisticCollector};
+    fn std_h(ecu: Option<&str>, ext: bool) -> StandardHeader {
+        StandardHeader { version: 1, endianness: Endianness::Little, has_extended_header: ext, message_counter: 0, ecu_id: ecu.map(|s| s.to_string()), session_id: None, timestamp: None, payload_length: 0 }
+    }
+    fn ext_h(verbose: bool, app: &str, ctx: &str) -> ExtendedHeader {
+        ExtendedHeader { verbose, argument_count: 0, message_type: MessageType::Log(LogLevel::Info), application_id: app.to_string(), context_id: ctx.to_string() }
+    }
+    let levels = [None, Some(LogLevel::Fatal), Some(LogLevel::Warn), Some(LogLevel::Invalid(9)), Some(LogLevel::Invalid(0))];
+    for (i1, l1) in levels.iter().enumerate() {
+        for (i2, l2) in levels.iter().enumerate() {
+            for with_ext2 in [false, true] {
+                for verbose2 in [false, true] {
+                    let mut c = StatisticInfoCollector::default();
+                    let s1 = Statistic { log_level: *l1, storage_header: None, standard_header: std_h(Some("E1"), true), extended_header: Some(ext_h(true, "AP", "CT")), payload: &[], is_verbose: true };
+                    let is_verbose2 = with_ext2 && verbose2;
+                    let s2 = Statistic { log_level: *l2, storage_header: None, standard_header: std_h(Some("E1"), with_ext2), extended_header: if with_ext2 { Some(ext_h(verbose2, "AP", "C2")) } else { None }, payload: &[], is_verbose: is_verbose2 };
+                    let _ = c.collect_statistic(s1);
+                    let _ = c.collect_statistic(s2);
+                    let info = c.collect();
+                    let bucket = |d: &LevelDistribution, l: &Option<LogLevel>| -> usize {
+                        match l { None => d.non_log, Some(LogLevel::Fatal) => d.log_fatal, Some(LogLevel::Error) => d.log_error, Some(LogLevel::Warn) => d.log_warning, Some(LogLevel::Info) => d.log_info, Some(LogLevel::Debug) => d.log_debug, Some(LogLevel::Verbose) => d.log_verbose, Some(LogLevel::Invalid(_)) => d.log_invalid }
+                    };
+                    let total = |d: &LevelDistribution| d.non_log + d.log_fatal + d.log_error + d.log_warning + d.log_info + d.log_debug + d.log_verbose + d.log_invalid;
+                    let same_bucket = std::mem::discriminant(l1) == std::mem::discriminant(l2) && match (l1, l2) { (Some(a), Some(b)) => std::mem::discriminant(a) == std::mem::discriminant(b), _ => true };
+                    let ecu = info.ecu_ids.iter().find(|(id, _)| id == "E1").map(|x| &x.1);
+                    let app = info.app_ids.iter().find(|(id, _)| id == "AP").map(|x| &x.1);
+                    let ok = match (ecu, app) {
+                        (Some(e), Some(a)) => {
+                            total(e) == 2 && bucket(e, l1) == if same_bucket { 2 } else { 1 } && bucket(e, l2) == if same_bucket { 2 } else { 1 }
+                                && total(a) == if with_ext2 { 2 } else { 1 } && info.ecu_ids.len() == 1
+                                && info.contained_non_verbose == !is_verbose2
+                        }
+                        _ => false,
+                    };
+                    if !ok {
+                        report("collect_statistic", format!("levels #{} #{} second message ext={} verbose={}", i1, i2, with_ext2, verbose2), format!("{:?}", info));
+                    }
+                }
+            }
+        }
+    }
+}
